@@ -98,9 +98,10 @@ def w_opus(case):
         nsect = tracks * 18
         img = bytearray(b'\xEE' * (nsect * 256))
         ext = {}
+        perm = case.get('perm') or list(range(nv))     # letter i sits in physical position perm[i] (A..H need not ascend by track)
         for i, X in enumerate(letters):
-            origin = (1 + i * sz) * 18
-            end = (1 + (i + 1) * sz) * 18 if i + 1 < nv else nsect
+            origin = (1 + perm[i] * sz) * 18
+            end = (1 + (perm[i] + 1) * sz) * 18 if perm[i] + 1 < nv else nsect
             ext[X] = (origin, end - origin)
             img[origin * 256:end * 256] = bytes([ord(X)]) * ((end - origin) * 256)
         st, ln, crossing = case['entry']
@@ -112,7 +113,7 @@ def w_opus(case):
         s16 = bytearray(256)
         s16[0], s16[1], s16[2], s16[3], s16[4] = 0x20, (nsect >> 8) & 0xFF, nsect & 0xFF, 18, tracks
         for i, X in enumerate(letters):
-            s16[8 + 2 * i] = 1 + i * sz
+            s16[8 + 2 * i] = 1 + perm[i] * sz
             cat_total = min(ext[X][1], 1023)
             if X == L and case.get('inflate'):
                 # the volume's own catalogue claims more sectors than the volume has (the disc catalogue in sector 16
@@ -127,12 +128,13 @@ def w_opus(case):
         img[17 * 256:18 * 256] = bytes(256)
         d = run.fresh_dir('c17')
         dfsrun.write(d, 'img.sdd', bytes(img))
-        last = (L == letters[-1])
-        sig = 'C17:opus:%s%s' % ('last-volume' if last else 'inner-volume', ':inflated-catalogue-total' if case.get('inflate') else '')
+        last = (perm[letters.index(L)] == nv - 1)
+        sig = 'C17:opus:%s%s%s' % ('last-volume' if last else 'inner-volume', ':inflated-catalogue-total' if case.get('inflate') else '',
+                                     ':letters-not-in-track-order' if case.get('perm') else '')
         note = 'Opus %d volumes of %d track(s), volume %s (%d sectors), entry start=%d length=%d (ends at %d)' % (
             nv, sz, L, B, st, ln, st + (ln + 255) // 256)
         run_entry_cmds(res, d, 'img.sdd', 0, L, crossing, ln, ord(L), sig, note)
-        res['nt'].append((nv, sz, L, st, ln))
+        res['nt'].append((nv, sz, L, st, ln, tuple(perm), case.get('inflate')))
         if res['viol']:
             res['case'] = case
     except Exception:
@@ -242,6 +244,21 @@ def fam_opus(tier):
                             yield {'w': 'opus', 'nv': nv, 'size': sz, 'tracks': tracks, 'vol': L, 'entry': [st, ln, crossing], 'inflate': inflate}
 
 
+def fam_opus_perm(tier):
+    """Opus discs whose volume letters are NOT in ascending track order: every non-identity assignment of 2..3 (thorough: 4) volumes
+    of 1..2 tracks to physical positions, every volume, entry extents ending at B-2..B+2 of the volume's true extent"""
+    for nv in ((2, 3) if tier == 'quick' else (2, 3, 4)):
+        for sz in (1, 2):
+            tracks = 40
+            for perm in itertools.permutations(range(nv)):
+                if list(perm) == list(range(nv)):
+                    continue
+                for i, L in enumerate('ABCDEFGH'[:nv]):
+                    B = sz * 18 if perm[i] + 1 < nv else tracks * 18 - (1 + perm[i] * sz) * 18
+                    for (st, ln, crossing) in window(B, 0):
+                        yield {'w': 'opus', 'nv': nv, 'size': sz, 'tracks': tracks, 'vol': L, 'entry': [st, ln, crossing], 'perm': list(perm)}
+
+
 def fam_sides(tier):
     """both sides of .dsd/.ddd and of two-sided non-interleaved .ssd/.sdd: entry extents around the end of the surface"""
     for cont, nt, spt in (('dsd', 40, 10), ('dsd', 80, 10), ('ddd', 40, 18), ('ddd', 35, 18), ('ssd', 40, 10), ('ssd', 80, 10), ('sdd', 40, 18)):
@@ -267,7 +284,7 @@ def fam_mmb(tier):
                 yield {'w': 'surface', 'container': 'mmb', 'ntracks': 80, 'spt': 10, 'which': s, 'slots': neigh, 'entry': [st, ln, crossing], 'nstat': nstat}
 
 
-FAMILIES = [('O-opus-volume-boundaries', fam_opus), ('S-side-boundaries', fam_sides), ('M-mmb-slot-boundaries', fam_mmb)]
+FAMILIES = [('O-opus-volume-boundaries', fam_opus), ('Q-opus-letters-not-in-track-order', fam_opus_perm), ('S-side-boundaries', fam_sides), ('M-mmb-slot-boundaries', fam_mmb)]
 
 
 def main(tier, seed):
